@@ -33,7 +33,7 @@ def one(d):
             return dict(id=name, status="skipped", why="patch does not apply to this tree", rules=rules, fired=[])
         fired = set()
         for p in props:
-            out = subprocess.run([os.path.join(VERIF, "bin", "c4echeck"), "-prop", p, "-tier", "quick", "-repo", t + "/src", "-verif", VERIF, "-out", t + "/out"],
+            out = subprocess.run([os.environ.get("C4E_BIN", os.path.join(VERIF, "bin", "c4echeck")), "-prop", p, "-tier", "quick", "-repo", t + "/src", "-verif", VERIF, "-out", t + "/out"],
                                  capture_output=True, text=True, env=ENV)
             fired |= set(re.findall(r"rule=(C\d\d\.\w+)", out.stdout))
         missing = [r for r in rules if r not in fired]
